@@ -98,6 +98,8 @@ def run(ctx):
               '(map .n (as_number .))', '(map .n (parse .))', '(map .l (as_string .))', '(map .l (stringify .))', '(map .l (parse (stringify .)))', '(stringify .s)', '(parse (stringify .s))', '(parse (stringify .o))',
               '(zip [1, 2, 3] ["a", "b"])', '(zip [] [1])', '(cross [1, 2] ["a"])', '(cross [] [1])', '(flat_map .l (? (array? .) . null))', '(flat_map [[1], 2, [3, [4]]] .)', '(range 0)', '(range 3)', '(range 2.0)',
               '(group_by .l (as_string (array? .)))', '(sort_by .l (? (number? .) . 0))', '(first [])', '(last [])', '(reverese .s)', '(uppercase .s)', '(lowercase "ÀÉ\u0130")', '(trim "\u00a0 x \t")']
+    yexprs += ['(sum (range 1000))', '(size (range 9999))']
+    if ctx['tier'] == 'thorough': yexprs += ['(size (range 70000))', '(last (range 65536))']      # sizes past 2^16: half a minute in the extracted model
     for ei, e in enumerate(yexprs):
         corpus.append(mkcase('Y%d' % ei, lib.new_cfg(select=[e + '=x']), yin))
     for oi, ob in enumerate(objs):
